@@ -319,6 +319,17 @@ type fault struct {
 	event     string
 }
 
+// evRec remembers every rows event produced, so that a later schema change
+// can mark the earlier events of its table: RunPollLoop reads the table's
+// columns when it decodes, and an event produced before the change may be
+// decoded after it (then its column count no longer fits).
+type evRec struct {
+	table     string
+	commitIdx int64
+	desc      string
+	faulty    bool
+}
+
 type quietLogger struct {
 	mu     sync.Mutex
 	errors []string
@@ -353,6 +364,7 @@ type history struct {
 	faults      []fault
 	faultAt     map[int]string // rows-event ordinal -> fault kind
 	eventCount  int
+	events      []evRec
 	eventLog    []string
 	deliverCh   chan []*replication.BinlogEvent
 	deliverDone chan struct{}
@@ -436,6 +448,7 @@ func (h *history) onCommit(changes []fakesql.RowChange) {
 			h.faults = append(h.faults, fault{kind: "schema-change-without-table-map", table: table, commitIdx: idx, event: desc})
 		}
 		h.eventLog = append(h.eventLog, desc)
+		h.events = append(h.events, evRec{table: table, commitIdx: idx, desc: desc, faulty: strings.Contains(desc, "FAULT") || h.staleMap[table]})
 		id := h.tableIDs[table]
 		// MySQL precedes every rows event with the table map of its table
 		events = append(events, tableMapEvent(database, table, id), rowsEvent(database, table, id, typ, rows))
@@ -507,6 +520,12 @@ func (h *history) alter(table string, renewTableID bool) {
 		return
 	}
 	h.mu.Lock()
+	for k := range h.events {
+		if e := &h.events[k]; e.table == table && !e.faulty {
+			e.faulty = true
+			h.faults = append(h.faults, fault{kind: "decoded-after-schema-change", table: table, commitIdx: e.commitIdx, event: e.desc + " (table changed shape later; decodable only if decoded before)"})
+		}
+	}
 	if renewTableID {
 		h.tableIDs[table] += 100
 		h.eventLog = append(h.eventLog, "ALTER "+table+" (new table id)")
@@ -730,9 +749,10 @@ func runHistory(run *vlib.Run, i int) {
 		OnCommit: h.onCommit,
 	})
 
-	// live queries
+	// live queries (all generated before any rerunner starts)
 	nRerunners := 1 + r.Intn(6)
 	var rerunners []*reactive.Rerunner
+	var perRerunner [][]*liveQuery
 	qid := 0
 	for k := 0; k < nRerunners; k++ {
 		var qs []*liveQuery
@@ -750,10 +770,17 @@ func runHistory(run *vlib.Run, i int) {
 			h.queries = append(h.queries, q)
 			h.byID[q.id] = q
 		}
-		qsCopy := qs
+		perRerunner = append(perRerunner, qs)
+	}
+	spawn := make([]bool, nRerunners)
+	for k := range spawn {
+		spawn[k] = r.Intn(2) == 0
+	}
+	for k := 0; k < nRerunners; k++ {
+		qs := perRerunner[k]
 		rr := reactive.NewRerunner(bg, func(ctx context.Context) (interface{}, error) {
 			atomic.AddInt64(&h.computeRuns, 1)
-			for _, q := range qsCopy {
+			for _, q := range qs {
 				res := runQuery(fakesql.WithTag(ctx, q.id), h.ldb, q.table, q.row, q.fd.filter)
 				q.mu.Lock()
 				q.runs++
@@ -764,7 +791,7 @@ func runHistory(run *vlib.Run, i int) {
 				q.mu.Unlock()
 			}
 			return nil, nil
-		}, time.Millisecond, r.Intn(2) == 0)
+		}, time.Millisecond, spawn[k])
 		rerunners = append(rerunners, rr)
 	}
 
